@@ -716,7 +716,9 @@ impl<W: Write + io::Seek> ZipWriter<W> {
             .last_modified_time(file.last_modified())
             .compression_method(file.compression());
         if let Some(perms) = file.unix_mode() {
-            options = options.unix_permissions(perms);
+            // keep the file-type bits as well: `unix_permissions` would strip them, turning a copied
+            // directory or symlink entry into an untyped one and a mode of 0o100000 into "no mode"
+            options.permissions = Some(perms);
         }
 
         let raw_values = ZipRawValues {
